@@ -35,7 +35,7 @@ ASSUMPTIONS = [
 ]
 EXHAUSTIVE = {"quick": False, "thorough": False}
 SENSITIVE = ["classes", "builtin_chains", "nested_comp", "move_before_loop", "common_code_ifs", "dead_code", "duplicates", "dict_items", "misc_rewrites",
-             "unused", "for_append", "zip_enumerate", "swap_if_else", "imports", "constants", "boolean_calls", "boolean"]
+             "unused", "for_append", "zip_enumerate", "swap_if_else", "imports", "constants", "boolean_calls", "boolean", "deep_long_lines", "layout"]
 
 
 # ------------------------------------------------------------------ performing a call
@@ -330,7 +330,10 @@ def histories(draw, rules):
             prev = [h for h in history if h["kind"] == "format"]
             if prev:
                 p = dict(draw(st.sampled_from(prev)))
-                p["opts"] = dict(p["opts"], safe=not p["opts"]["safe"])
+                if draw(st.booleans()):
+                    p["opts"] = dict(p["opts"], safe=not p["opts"]["safe"])
+                else:
+                    p["opts"] = dict(p["opts"], max_line_length=draw(st.sampled_from([60, 79, 120])))
                 history.append(p)
                 continue
         if k in ("format", "repeat", "other_config"):
